@@ -217,4 +217,20 @@ CHECKS = {
              "checks": {"quick": 2000, "thorough": 20000}, "shards": {"quick": 4, "thorough": 16}},
         ],
     },
+    "C04": {
+        "level_text": "Fault enumeration over the routing world: random histories with breaks/reconnections of source and target streams (4 failure kinds) and a systematic sweep (every step boundary x stream x failure kind of generated fault-free prefixes, each followed by reconnect and a confirming tail); cross-incarnation ack-safety invariant. Two genuine defect families of the pinned tree are recorded as known findings (signatures evaluated by the check on each violating (ack, task) pair); any other violating pair is an alarm.",
+        "technique": "fault-position enumeration + stateful property-based testing (rapid) in virtual time; cross-incarnation history invariant; known-finding signatures",
+        "level": "fault_enumeration",
+        "assumptions": [
+            "routing world as in C01 (real streamRouting, scripted fakes, virtual time, Temporal sender/receiver models)",
+            "a re-connected source resumes from the highest low watermark it was ever sent and re-sends from there (what a Temporal source persists); a re-connected target starts with a fresh tracker",
+            "a broken stream is ended the way gRPC ends it: handler returned => server stream dead; peers end streams the proxy half-closes",
+        ],
+        "parts": [
+            {"name": "rapid", "pkg": "proxy", "run": "^TestVF_C04_Rapid$",
+             "checks": {"quick": 1500, "thorough": 20000}, "shards": {"quick": 4, "thorough": 16}},
+            {"name": "systematic", "pkg": "proxy", "run": "^TestVF_C04_Systematic$",
+             "checks": {"quick": 3, "thorough": 40}, "shards": {"quick": 4, "thorough": 16}, "shrinktime": "60s"},
+        ],
+    },
 }
